@@ -55,16 +55,60 @@ Theorem C12_get_internal_get : forall t p,
 Proof. exact get_internal_get. Qed.
 Print Assumptions C12_get_internal_get.
 
-(* a lookup, and a failed set, leave the tree as it was *)
+(* ---- a failed call changes nothing the caller can see *)
+(* a lookup, and a failed set, leave the tree as it was; a failed set leaves the root handle *)
 Theorem C12_get_no_side_effect : forall al t o t' obs,
   ptr_step al t o = (t', obs) ->
   match o, obs with
-  | OGet _, _ | OGetf _, _ => t' = t
-  | _, ObsSet (Some _) => t' = t
+  | OGet _ _, _ | OGetf _ _, _ => t' = t
+  | _, ObsSet (Some _) root_new => t' = t /\ root_new = false
   | _, _ => True
   end.
 Proof. exact get_no_side_effect. Qed.
 Print Assumptions C12_get_no_side_effect.
+
+(* the out-parameter `res` of get / getf ([ptr_get_out] / [ptr_getf_out]: the result and the
+   caller's variable afterwards; None = res == NULL): a failing lookup leaves it exactly as
+   it was, a successful one stores the node found *)
+Theorem C12_get_failure_keeps_res : forall t p res e res',
+  ptr_get_out t p res = (GErr e, res') -> res' = res.
+Proof. exact get_failure_keeps_res. Qed.
+Print Assumptions C12_get_failure_keeps_res.
+
+Theorem C12_getf_failure_keeps_res : forall t out res e res',
+  ptr_getf_out t out res = (GErr e, res') -> res' = res.
+Proof. exact getf_failure_keeps_res. Qed.
+Print Assumptions C12_getf_failure_keeps_res.
+
+Theorem C12_get_success_stores_node : forall t p res path n res',
+  ptr_get_out t p res = (GOk path n, res') ->
+  res' = match res with Some _ => Some (RNode path n) | None => None end /\ node_at t path = Some n.
+Proof. exact get_success_stores_node. Qed.
+Print Assumptions C12_get_success_stores_node.
+
+Theorem C12_getf_success_stores_node : forall t out res path n res',
+  ptr_getf_out t out res = (GOk path n, res') ->
+  res' = match res with Some _ => Some (RNode path n) | None => None end.
+Proof. exact getf_success_stores_node. Qed.
+Print Assumptions C12_getf_success_stores_node.
+
+(* return code, errno and node of the calls with an out-parameter are those of ptr_get / ptr_getf *)
+Theorem C12_get_out_result : forall t p res, fst (ptr_get_out t p res) = ptr_get t p.
+Proof. exact get_out_result. Qed.
+Print Assumptions C12_get_out_result.
+
+Theorem C12_getf_out_result : forall t out res, fst (ptr_getf_out t out res) = ptr_getf t out.
+Proof. exact getf_out_result. Qed.
+Print Assumptions C12_getf_out_result.
+
+(* the root handle `*obj` of set changes only through the pointer "", which cannot fail *)
+Theorem C12_set_root_handle : forall al t p v,
+  match ptr_set al t p v with
+  | SErr _ => True
+  | SOk t' => if root_replaced t p v then p = [] /\ t' = v else (p = [] -> t' = t)
+  end.
+Proof. exact set_root_handle. Qed.
+Print Assumptions C12_set_root_handle.
 
 (* ---- set = RFC placement (member named by the unescaped last token, array index, append for
    "-"); besides the RFC's own failures it may only fail for lack of room in an array *)
